@@ -304,8 +304,17 @@ func (s *Syncer) walkFetch(ctx context.Context, rootCid cid.Cid, sel selector.Se
 }
 
 func (s *Syncer) fetch(ctx context.Context, rsrc string, cb func(io.Reader) error) error {
+	// tryNoPath is set while this request is retried without the IPNI path.
+	// The syncer only switches to no-path URLs for good if that retry is
+	// answered, so that a not-found or forbidden response from a publisher
+	// that does serve the IPNI path does not break later requests.
+	var tryNoPath bool
 nextURL:
-	fetchURL := s.rootURL.JoinPath(rsrc)
+	rootURL := s.rootURL
+	if tryNoPath {
+		rootURL.Path = strings.TrimSuffix(rootURL.Path, strings.Trim(IPNIPath, "/"))
+	}
+	fetchURL := rootURL.JoinPath(rsrc)
 	var doneRetry bool
 retry:
 	req, err := http.NewRequestWithContext(ctx, "GET", fetchURL.String(), nil)
@@ -342,14 +351,18 @@ retry:
 
 	switch resp.StatusCode {
 	case http.StatusOK:
+		if tryNoPath {
+			// This is a legacy HTTP server. Do not use the IPNI path anymore.
+			s.rootURL = rootURL
+			s.noPath = true
+		}
 		return cb(resp.Body)
 	case http.StatusNotFound:
 		_, _ = io.Copy(io.Discard, resp.Body)
-		if s.plainHTTP && !s.noPath {
+		if s.plainHTTP && !s.noPath && !tryNoPath {
 			// Try again with no path for legacy http.
 			log.Warnw("Plain HTTP got not found response, retrying without IPNI path for legacy HTTP")
-			s.rootURL.Path = strings.TrimSuffix(s.rootURL.Path, strings.Trim(IPNIPath, "/"))
-			s.noPath = true
+			tryNoPath = true
 			goto nextURL
 		}
 		log.Errorw("Block not found from HTTP publisher", "resource", rsrc)
@@ -359,11 +372,10 @@ retry:
 		return fmt.Errorf("content not found: %w", ipld.ErrNotExists{})
 	case http.StatusForbidden:
 		_, _ = io.Copy(io.Discard, resp.Body)
-		if s.plainHTTP && !s.noPath {
+		if s.plainHTTP && !s.noPath && !tryNoPath {
 			// Try again with no path for legacy http.
 			log.Warnw("Plain HTTP got forbidden response, retrying without IPNI path for legacy HTTP")
-			s.rootURL.Path = strings.TrimSuffix(s.rootURL.Path, strings.Trim(IPNIPath, "/"))
-			s.noPath = true
+			tryNoPath = true
 			goto nextURL
 		}
 		fallthrough
